@@ -262,6 +262,87 @@ theorem occlusionSgm_generated_eq (m : DMap) (r c : Nat) (hr : r < m.rows) (hc :
       simp [secondLowestAbs, raise, filledOcclusion, inb, wrap, Interp.isort]
   · simp [hocc, embedDisp, embedFlag]
 
+/-! ## `interpolate_mismatch_sgm` -/
+
+theorem clipIdx_natCast {n a : Nat} (h : a ≤ n) : clipIdx (n : Int) (a : Int) = a := by
+  have h1 : ¬ ((a : Int) < 0) := by omega
+  have h2 : ¬ ((n : Int) < (a : Int)) := by omega
+  simp [clipIdx, h1, h2]
+
+theorem sum_natCast (l : List Nat) (f : Nat → Nat) :
+    (((l.map f).sum : Nat) : Int) = (l.map fun x => ((f x : Nat) : Int)).sum := by
+  induction l with
+  | nil => simp
+  | cons x t ih => simp only [List.map_cons, List.sum_cons, Nat.cast_add, ih]
+
+theorem allNonneg2_embedFlag (m : DMap) (n0 n1 lo0 hi0 lo1 hi1 : Int) :
+    allNonneg2 (embedFlag m) n0 n1 lo0 hi0 lo1 hi1 = true := by
+  simp [allNonneg2, embedFlag_nonneg]
+
+/-- the clipped 3×3 slice sum of the source, whatever the text of its four bounds, is the hand model's
+    `occlusionSum3x3` as soon as the bounds have the values `max(0, i-1)` / `min(n-1, i+1) + 1` -/
+theorem sumBand2_eq (m : DMap) (r c : Nat) (lo0 hi0 lo1 hi1 : Int) (hr : r < m.rows) (hc : c < m.cols)
+    (e0 : lo0 = ((r - 1 : Nat) : Int)) (e1 : hi0 = ((min (m.rows - 1) (r + 1) + 1 : Nat) : Int))
+    (e2 : lo1 = ((c - 1 : Nat) : Int)) (e3 : hi1 = ((min (m.cols - 1) (c + 1) + 1 : Nat) : Int)) :
+    sumBand2 (embedFlag m) m.rows m.cols lo0 hi0 lo1 hi1 256 = ((occlusionSum3x3 m r c : Nat) : Int) := by
+  subst e0 e1 e2 e3
+  have h256 : (256 : Int) = ((256 : Nat) : Int) := rfl
+  simp only [sumBand2, sliceIdx, occlusionSum3x3, occlusion,
+    clipIdx_natCast (show r - 1 ≤ m.rows by omega), clipIdx_natCast (show min (m.rows - 1) (r + 1) + 1 ≤ m.rows by omega),
+    clipIdx_natCast (show c - 1 ≤ m.cols by omega), clipIdx_natCast (show min (m.cols - 1) (c + 1) + 1 ≤ m.cols by omega)]
+  rw [sum_natCast]
+  congr 1
+  apply List.map_congr_left
+  intro i _
+  rw [sum_natCast]
+  congr 1
+
+/-- bounds of the 3×3 window written with `max` / `min` in any order -/
+macro "window_bound" : tactic => `(tactic| (
+  simp only [imax, imin]
+  (repeat' split) <;> omega))
+
+/-- **One pixel of `interpolate_mismatch_sgm`, as the source defines it today, is the hand model's `mismSgmPixel`**
+    (guarded text, bits raised with `|=`): the clipped 3×3 occlusion test, the conversion mismatch → occlusion, the
+    call of `find_valid_neighbors`, the guard and the `nanmedian` fill — for every map and every pixel inside it. -/
+theorem mismatchSgm_generated_eq (m : DMap) (r c : Nat) (hr : r < m.rows) (hc : c < m.cols) :
+    mismatchSgmPx (embedDisp m) m.rows m.cols (embedFlag m) m.rows m.cols r c
+      = .ok ((mismSgmPixel ⟨true, .or⟩ m r c).1, (((mismSgmPixel ⟨true, .or⟩ m r c).2 : Nat) : Int)) := by
+  have hr0 : (0 : Int) ≤ r := Int.natCast_nonneg r
+  have hc0 : (0 : Int) ≤ c := Int.natCast_nonneg c
+  have hrR : (r : Int) < m.rows := by exact_mod_cast hr
+  have hcC : (c : Int) < m.cols := by exact_mod_cast hc
+  have hcall := findValidNeighbors_generated_eq m r c
+  simp only [sgmDirs] at hcall
+  have h512 : (512 : Int) = ((512 : Nat) : Int) := rfl
+  have h256 : (256 : Int) = ((256 : Nat) : Int) := rfl
+  have h32 : (32 : Int) = ((32 : Nat) : Int) := rfl
+  have hb : embedFlag m (r : Int) (c : Int) = ((m.flag r c : Nat) : Int) := by simp [embedFlag]
+  simp only [mismatchSgmPx, get2_of (embedFlag m) _ _ hr0 hc0, get2_of (embedDisp m) _ _ hr0 hc0,
+    inb2_of hr0 hrR hc0 hcC, embedFlag_nonneg, decide_true, Bool.and_true, hcall, Res.isOk, Res.getD,
+    allNonneg2_embedFlag]
+  rw [sumBand2_eq m r c _ _ _ _ hr hc ?e0 ?e1 ?e2 ?e3]
+  · rw [h512, flag_test m r c 512]
+    have hmi : mismatch = 512 := rfl
+    have hoc : occlusion = 256 := rfl
+    have hfm : filledMismatch = 32 := rfl
+    unfold mismSgmPixel
+    simp only [hmi, hoc, hfm]
+    by_cases hmis : ((m.flag r c &&& 512) != 0) = true
+    · have hle : 512 ≤ m.flag r c := le_of_and_two_pow (k := 9) hmis
+      have hnn : (0 : Int) ≤ ((m.flag r c : Nat) : Int) - ((512 : Nat) : Int) := by omega
+      have hbor1 := sub_bor (m.flag r c) 512 256 hle
+      have hbor2 := sub_bor (m.flag r c) 512 32 hle
+      simp only [hmis, if_true, hb, hnn, decide_true, Bool.and_true, h256, h32, hbor1, hbor2]
+      by_cases hs : occlusionSum3x3 m r c = 0
+      · by_cases hg : (nums (Interp.findValidNeighbors m r c)).isEmpty = true
+        · simp [hs, hg, anyFinite, embedDisp]
+        · simp [hs, hg, anyFinite, PyInterp.nanmedian, raise]
+      · have : ¬ (((occlusionSum3x3 m r c : Nat) : Int) = 0) := by exact_mod_cast hs
+        simp [hs, this, raise, embedDisp]
+    · simp [hmis, embedDisp, embedFlag]
+  all_goals window_bound
+
 /-! ## Non-vacuity -/
 
 def exMap : DMap :=
@@ -275,5 +356,15 @@ example : Interp.findValidNeighbors exMap 1 1 = [.num 8, .num 7, .num 4, .nan, .
   decide +kernel
 example : occlusionSgmPx (embedDisp exMap) 3 3 (embedFlag exMap) 3 3 1 1 = .ok (.num 3, 16) := by decide +kernel
 example : occlSgmPixel ⟨true, .or⟩ exMap 1 1 = (.num 3, 16) := by decide +kernel
+
+/-- a mismatch next to an occlusion (converted) and one away from it (median of its neighbours) -/
+def exMap2 : DMap :=
+  { rows := 1, cols := 5,
+    disp := fun _ c => if c = 1 ∨ c = 3 then .nan else .num (c + 2),
+    flag := fun _ c => if c = 0 then 256 else if c = 1 ∨ c = 3 then 512 else 0 }
+
+example : mismatchSgmPx (embedDisp exMap2) 1 5 (embedFlag exMap2) 1 5 0 1 = .ok (.nan, 256) := by decide +kernel
+example : mismatchSgmPx (embedDisp exMap2) 1 5 (embedFlag exMap2) 1 5 0 3 = .ok (.num 5, 32) := by decide +kernel
+example : mismSgmPixel ⟨true, .or⟩ exMap2 0 3 = (.num 5, 32) := by decide +kernel
 
 end Pandora.C14Kernels
